@@ -108,6 +108,34 @@ MUTANTS = [
      "            res = ein.rearrange(self.syncurrent, \"b n 1 -> b n\")", "            res = ein.rearrange(self.syncurrent, \"b n 1 -> b n\")[:1].expand(res.shape[0], -1)"),
     ("synspike_uses_current_selector_floor", "C06", 2000, "inferno/neural/base.py",
      "            return self.synapse.spike_at(self.selector)", "            return self.synapse.spike_at(self.selector.floor())"),
+    ("stdp_hebbian_routing_swapped", "C08", 800, "inferno/learn/trainers/two_factor_stdp.py",
+     "                case (True, False):  # hebbian\n                    cell.updater.weight = (dpost, dpre)", "                case (True, False):  # hebbian\n                    cell.updater.weight = (dpre, dpost)", 0),
+    ("stdp_trace_pre_wrong_tc", "C08", 800, "inferno/learn/trainers/two_factor_stdp.py",
+     "                    state.tc_pre,\n                    amplitude=abs(state.lr_post),", "                    state.tc_post,\n                    amplitude=abs(state.lr_post),", 0),
+    ("stdp_delayed_view_uses_peek", "C08", 800, "inferno/learn/trainers/two_factor_stdp.py",
+     "                if state.delayed and cell.connection.delayedby\n                else monitors[\"spike_pre\"].peek()", "                if state.delayed and cell.connection.delayedby and False\n                else monitors[\"spike_pre\"].peek()", 0),
+    ("triplet_slow_trace_same_step", "C08", 800, "inferno/learn/trainers/two_factor_stdp.py",
+     "            y_b = monitors[\"trace_post_slow\"].reducer.data_.read(2)", "            y_b = monitors[\"trace_post_slow\"].reducer.data_.read(1)", 0),
+    ("mstdpet_eligibility_not_scaled", "C08", 800, "inferno/learn/trainers/three_factor_stdp.py",
+     "        self.scale = 1 / self.time_constant", "        self.scale = 1.0"),
+    ("mstdp_tensor_signal_sign_ignored", "C08", 800, "inferno/learn/trainers/three_factor_stdp.py",
+     "                signal_neg = torch.argwhere(signal < 0).view(-1)", "                signal_neg = torch.argwhere(signal < -0.3).view(-1)", 1),
+    ("stdp_batchreduce_always_mean", "C08", 800, "inferno/learn/trainers/two_factor_stdp.py",
+     "            dpost = state.batchreduce(\n                ein.einsum(i_post, x_pre, \"b ... r, b ... r -> b ...\"), 0\n            )", "            dpost = torch.mean(\n                ein.einsum(i_post, x_pre, \"b ... r, b ... r -> b ...\"), 0\n            )", 0),
+    ("stdp_depressive_drops_pre", "C09", 800, "inferno/learn/trainers/two_factor_stdp.py",
+     "                case (False, False):  # depressive\n                    cell.updater.weight = (None, dpost + dpre)", "                case (False, False):  # depressive\n                    cell.updater.weight = (None, dpost - dpre)", 0),
+    ("kernel_split_unclamped", "C09", 800, "inferno/learn/trainers/kernel_stdp.py",
+     "                state.batchreduce(dpost.clamp_min(0.0).nansum(dim=-1), 0)\n                + state.batchreduce(dpre.clamp_min(0.0).nansum(dim=-1), 0),", "                state.batchreduce(dpost.nansum(dim=-1), 0)\n                + state.batchreduce(dpre.clamp_min(0.0).nansum(dim=-1), 0),", 0),
+    ("dastdp_routing_anti_swapped", "C09", 800, "inferno/learn/trainers/delay_adj_two_factor_stdp.py",
+     "                case (False, True):  # anti-hebbian\n                    cell.updater.weight = (dneg, dpos)", "                case (False, True):  # anti-hebbian\n                    cell.updater.weight = (dpos, dneg)"),
+    ("dastdp_tdelta_sign", "C18", 800, "inferno/learn/trainers/delay_adj_two_factor_stdp.py",
+     "            t_delta = t_pre - t_post - cell.connection.delay.unsqueeze(-1)", "            t_delta = t_pre - t_post + cell.connection.delay.unsqueeze(-1)", 0),
+    ("dastdpd_branch_inclusive", "C18", 800, "inferno/learn/trainers/delay_adj_two_factor_stdp.py",
+     "(abs(state.lr_pos) * (t_delta < 0).to(dtype=t_delta_abs.dtype))", "(abs(state.lr_pos) * (t_delta <= 0).to(dtype=t_delta_abs.dtype))"),
+    ("event_reducer_counts_from_dt", "C18", 800, "inferno/observe/reducers/general.py",
+     "            return torch.where(self.criterion(obs), 0, state + self.dt).to(", "            return torch.where(self.criterion(obs), 0, state + 1.0).to("),
+    ("kernel_pre_uses_post_kwargs", "C18", 800, "inferno/learn/trainers/kernel_stdp.py",
+     "            dpre = state.kernel_pre(\n                t_delta,\n                **(\n                    state.kernel_pre_kwargs", "            dpre = state.kernel_pre(\n                t_delta,\n                **(\n                    state.kernel_post_kwargs", 1),
     ("resize_keeps_head", "C13", 3000, INFRA,
      "            slices[dim] = slice(tensor.shape[dim] - size, None)\n            return tensor[*slices]", "            slices[dim] = slice(None, size)\n            return tensor[*slices]"),
     ("resize_no_align", "C13", 3000, INFRA,
@@ -120,15 +148,23 @@ MUTANTS = [
 
 
 def run_one(m):
-    mid, prop, runs, rel, old, new = m
+    mid, prop, runs, rel, old, new = m[:6]
+    nth = m[6] if len(m) > 6 else None     # optional: replace only the nth (0-based) occurrence of a repeated snippet
     scratch = tempfile.mkdtemp(prefix="inferno-mut-", dir="/var/tmp")
     try:
         subprocess.run(["rsync", "-a", "--exclude", ".git", "--exclude", "__pycache__", "/repo/", scratch + "/"], check=True)
         p = os.path.join(scratch, rel)
         s = open(p).read()
-        if s.count(old) != 1:
-            return mid, prop, "PATCH-DOES-NOT-APPLY (%d matches)" % s.count(old)
-        open(p, "w").write(s.replace(old, new))
+        if nth is None:
+            if s.count(old) != 1:
+                return mid, prop, "PATCH-DOES-NOT-APPLY (%d matches)" % s.count(old)
+            s = s.replace(old, new)
+        else:
+            parts = s.split(old)
+            if len(parts) - 1 <= nth:
+                return mid, prop, "PATCH-DOES-NOT-APPLY (%d matches)" % (len(parts) - 1)
+            s = old.join(parts[: nth + 1]) + new + old.join(parts[nth + 1:])
+        open(p, "w").write(s)
         env = dict(os.environ, VERIF_REPO=scratch, VERIF_EVIDENCE_DIR=os.path.join(scratch, "_evidence"))
         r = subprocess.run([os.path.join(V, "check"), prop, "--runs", str(runs), "--wall", "120"], env=env,
                            capture_output=True, text=True, timeout=900)
